@@ -94,6 +94,36 @@ def tree_funcs(ctx, thorough=False):
     return fs
 
 
+def tree_receivers(ctx, f):
+    """local names of ``f`` that denote a ContractionTree (family) object: other
+    classes reuse attribute names such as ``children`` or ``_flops`` (MiniTree,
+    MCTS, ContractionCosts) and must not be confused with trees."""
+    key = ("treerecv", f.key)
+    cache = ctx.__dict__.setdefault("_c02_recv", {})
+    if key in cache:
+        return cache[key]
+    tc = tree_class(ctx)
+    fam = set([tc] + tc.all_subclasses())
+    names = set()
+    cand = set(f.params) | set(ctx.r.local_assignments(f))
+    if f.parent_func is not None:
+        cand |= set(f.parent_func.params) | set(ctx.r.local_assignments(f.parent_func))
+    for nm in cand:
+        if nm is None:
+            continue
+        ts = ctx.r.type_of_expr(f, ast.Name(id=nm, ctx=ast.Load()))
+        if ts & fam:
+            names.add(nm)
+    cache[key] = names
+    return names
+
+
+def _root_name(expr):
+    while isinstance(expr, (ast.Attribute, ast.Subscript, ast.Call)):
+        expr = expr.func if isinstance(expr, ast.Call) else expr.value
+    return expr.id if isinstance(expr, ast.Name) else None
+
+
 # --------------------------------------------------------------------------- #
 
 
@@ -594,8 +624,16 @@ def rule_cores(ctx):
         if f.name in ("__init__", "set_state_from"):
             continue
         d = ctx.effects.direct(f)
-        muts = [a for a in d["access"] if a.attr == "sliced_inds" and a.kind in ("write", "mutate")]
+        recvs = tree_receivers(ctx, f)
+        muts = [a for a in d["access"] if a.attr == "sliced_inds" and a.kind in ("write", "mutate")
+                and a.recv in recvs]
         if not muts:
+            continue
+        if f.cls is not None and f.cls.module.path != C.CORE:
+            for a in muts:
+                r.exempt(ctx.key(f, "C02-CORES", a.recv), a.loc,
+                         "ContractionTreeMulti.sliced_inds is the table of variable indices of "
+                         "a multi-contraction, not a sliced set of the executed contraction")
             continue
         # only receivers that are trees
         fl = ctx.flow(f)
@@ -650,6 +688,9 @@ def rule_node(ctx):
                     tgt, what = n, f"{v.attr}.{n.func.attr}()"
             if tgt is None:
                 continue
+            base = tgt.func.value if isinstance(tgt, ast.Call) else tgt
+            if _root_name(base) not in tree_receivers(ctx, f):
+                continue  # same attribute name on a different kind of object
             k = ctx.key(f, "C02-NODE", what)
             if what.startswith("children[...] ="):
                 ok = f.name in allowed_child_store or f.name in thorough_child_store
